@@ -94,6 +94,7 @@ type interpreter struct {
 	depth              int
 	onceDone           map[string]bool
 	panicTrace         []string
+	noMerge            bool
 	cfg                *Config
 	errorStringPtr     types.Type // *errors.errorString
 }
@@ -583,12 +584,25 @@ func callSSA(i *interpreter, caller *frame, callpos token.Pos, fn *ssa.Function,
 	} else if fn.Pkg != nil && i.cfg.trackPkg(fn.Pkg.Pkg.Path()) {
 		i.pc.stats.FuncsEntered[fn.String()] = true
 	}
+	if i.cfg.MergeFuncs != nil && i.cfg.MergeFuncs[fn.String()] && !i.pc.concrete && !i.noMerge {
+		if v, ok := callMerged(i, caller, callpos, fn, args, env); ok {
+			return v
+		}
+	}
 	i.depth++
 	if i.depth > 400 {
 		panic(pathEnd{"call-depth"})
 	}
 	defer func() { i.depth-- }()
+	return callSSABody(i, caller, callpos, fn, args, env)
+}
 
+func callSSABody(i *interpreter, caller *frame, callpos token.Pos, fn *ssa.Function, args []value, env []value) value {
+	fr := &frame{
+		i:      i,
+		caller: caller, // for panic/recover
+		fn:     fn,
+	}
 	// generic function body?
 	if fn.TypeParams().Len() > 0 && len(fn.TypeArgs()) == 0 {
 		panic("interp requires ssa.BuilderMode to include InstantiateGenerics to execute generics")
